@@ -279,6 +279,10 @@ pub fn run(o: &Opts) -> Report {
     let mut rep = Report::new("C01");
     let mut drv = Drv::spawn(&o.drv);
     if let Some(case) = &o.replay {
+        if case.starts_with("hufdec ") {
+            huf_one(&mut drv, &mut rep, case);
+            return rep;
+        }
         let stream = unhex(case.split_whitespace().nth(1).unwrap_or("-"));
         one(&mut drv, &mut rep, "replay", &stream, stream.len() < 20000);
         return rep;
@@ -456,10 +460,85 @@ pub fn run(o: &Opts) -> Report {
             rep.disagree(Disagreement { case: format!("vp8l {sthex} looptie"), got: got.clone(), expected: m.to_string(), class: if got != sp { "violation" } else { "correspondence" }, obligation: "tie2: decode_image_data = LLoop.decode on the operations the stream encodes (and = the per-pixel specification)".into(), detail: line.chars().take(300).collect() });
         }
     }
+    // the entropy decoder against the specification's canonical decoder (Prefix.decodeSymbol, for
+    // which C14.codes_decodable / Prefix.decodeSym_canonical are proved): HuffmanTree::build_implicit
+    // + read_symbol on generated code lengths of every shape (alphabets 2..600 and the 2328-symbol
+    // green alphabet, depths to 15, primary-table-only and secondary-tree codes), incomplete /
+    // over-subscribed / single / empty length vectors, and random byte strings incl. truncation
+    let nhuf = if o.thorough() { 6000 } else { 700 };
+    let mut hlines = Vec::new();
+    for i in 0..nhuf {
+        let n = match i % 8 { 0 => 2 + rng.below(4) as usize, 1 => 19, 2 => 40, 3 => 256, 4 => 280, 5 => 2 + rng.below(600) as usize, 6 if i % 64 == 6 => 2328, _ => 2 + rng.below(64) as usize };
+        let used = match rng.below(4) { 0 => n, 1 => 2.min(n), _ => 2 + rng.below((n - 1) as u64) as usize }.min(n);
+        let mut minbits = 1u8;
+        while (1usize << minbits) < used { minbits += 1; }
+        let maxd = minbits.max(match rng.below(4) { 0 => 15, 1 => 10, 2 => 11, _ => 1 + rng.below(15) as u8 });
+        let depths = crate::vp8lgen::complete_depths(&mut rng, used, maxd);
+        // scatter the used symbols over the alphabet
+        let mut lengths = vec![0u8; n];
+        let mut slots: Vec<usize> = (0..n).collect();
+        for d in depths {
+            let k = rng.below(slots.len() as u64) as usize;
+            lengths[slots.swap_remove(k)] = d;
+        }
+        let kind = rng.below(12);
+        match kind {
+            0 => { let k = rng.below(n as u64) as usize; lengths[k] = if lengths[k] == 0 { 1 + rng.below(15) as u8 } else { 0 }; }
+            1 => { let k = rng.below(n as u64) as usize; lengths[k] = 1 + rng.below(15) as u8; }
+            2 => { lengths.iter_mut().for_each(|l| *l = 0); if rng.chance(1, 2) { let k = rng.below(n as u64) as usize; lengths[k] = 1 + rng.below(15) as u8; } }
+            _ => {}
+        }
+        let nb = match rng.below(5) { 0 => rng.below(3) as usize, 1 => 64, _ => 1 + rng.below(40) as usize };
+        let bytes: Vec<u8> = match rng.below(6) { 0 => vec![0xff; nb], 1 => vec![0; nb], _ => (0..nb).map(|_| rng.next() as u8).collect() };
+        let nsym = 1 + rng.below(48) as usize;
+        hlines.push(format!("hufdec {nsym} {} {}", join(&lengths), hex(&bytes)));
+    }
+    let hreplies = ask_parallel(&o.drv, &hlines, 8);
+    for (line, reply) in hlines.iter().zip(&hreplies) {
+        huf_check(&mut rep, line, reply);
+    }
     for (name, s) in crafted() {
         one(&mut drv, &mut rep, &name, &s, dims_of(&s).map(|(w, h)| w * h <= 2500).unwrap_or(false));
     }
     rep
+}
+
+/// the crate's HuffmanTree on one `hufdec n lengths hexbytes` request, in the driver's reply format
+fn huf_impl(line: &str) -> String {
+    let mut it = line.split_whitespace().skip(1);
+    let n: usize = it.next().and_then(|x| x.parse().ok()).unwrap_or(0);
+    let lengths: Vec<u16> = it.next().map(|l| if l == "-" { vec![] } else { l.split(',').filter_map(|x| x.parse().ok()).collect() }).unwrap_or_default();
+    let bytes = unhex(it.next().unwrap_or("-"));
+    let r = catch(|| match hk::Huff::build_implicit(lengths.clone()) {
+        Err(_) => "invalid".to_string(),
+        Ok(t) => {
+            let (syms, err) = t.read_symbols(&bytes, n);
+            format!("syms={} end={}", join(&syms), if err.is_none() { "ok" } else { "eof" })
+        }
+    });
+    match r { Ok(s) => s, Err(m) => format!("PANIC {m}") }
+}
+
+fn huf_check(rep: &mut Report, line: &str, reply: &str) {
+    let got = huf_impl(line);
+    let nontrivial = reply != "invalid";
+    rep.case(line, nontrivial);
+    rep.hit(if nontrivial { "entropy_decoder_tie_valid_code" } else { "entropy_decoder_tie_invalid_lengths" });
+    if reply.ends_with("end=eof") { rep.hit("entropy_decoder_tie_data_exhausted"); }
+    if let Some(l) = line.split_whitespace().nth(2) {
+        let mx = l.split(',').filter_map(|x| x.parse::<u8>().ok()).max().unwrap_or(0);
+        if nontrivial && mx > 10 { rep.hit("entropy_decoder_tie_secondary_tree"); }
+        if nontrivial && mx == 15 { rep.hit("entropy_decoder_tie_depth_15"); }
+    }
+    if got != reply {
+        rep.disagree(Disagreement { case: line.to_string(), got, expected: reply.to_string(), class: "violation",
+            obligation: "HuffmanTree::build_implicit + read_symbol = the specification's canonical prefix decoder (Prefix.validLengths / Prefix.decodeSymbol) on the same lengths and bits".into(), detail: String::new() });
+    }
+}
+
+fn huf_one(drv: &mut Drv, rep: &mut Report, line: &str) {
+    let reply = drv.ask(line);
+    huf_check(rep, line, &reply);
 }
 
 /// parse just enough of the stream to see which transforms / cache / meta codes it uses
